@@ -166,6 +166,24 @@ func init() {
 					cases = append(cases, Case{"kind": "x", "cmd": exploreCmds[4+(ci+off)%5], "stdin": []byte(t[:off]), "note": fmt.Sprintf("yaml%d[:%d]", ci, off)})
 				}
 			}
+			// every single-line omission of a block-form document (each field on its own line, both orders of the chord keys),
+			// on every write command: a missing field is either a default or a refusal, never a crash or garbage
+			blocks := []string{
+				"- chord:\n    name: m7\n    degree: \"b3\"\n    base: \"5\"\n  values:\n    - \"1\"\n    - \"1/2\"\n  bpm: 120\n  velocity: ff\n  meter: \"3/4\"\n  key: Ebm\n  meta:\n    txt: \"hello\"\n- values:\n    - \"2\"\n",
+				"- values:\n    - \"1\"\n  chord:\n    degree: \"1\"\n    name: \"\"\n- chord:\n    base: \"3\"\n    degree: \"5\"\n    name: \"7\"\n  values:\n    - \"2\"\n",
+			}
+			for bi, b := range blocks {
+				lines := strings.SplitAfter(b, "\n")
+				for li := range lines {
+					if lines[li] == "" {
+						continue
+					}
+					t := strings.Join(append(append([]string{}, lines[:li]...), lines[li+1:]...), "")
+					for ci := 4; ci < len(exploreCmds); ci++ {
+						cases = append(cases, Case{"kind": "x", "cmd": exploreCmds[ci], "stdin": []byte(t), "note": fmt.Sprintf("block%d-line%d", bi, li)})
+					}
+				}
+			}
 			junk := []string{"\xff\xfe", "\x00", "\xc3", "\xe2\x99", "{", "}", "[", "]", "_", ";", "=", ",", "/", "#", "♭", "0", "9999999999999999999999", "19999999999999999", "18446744073709551615", "4294967296", "65536", "R", "C", "\n", " ", "- ", ": ", "\"", "'", "!!binary ", "&a ", "*a ", "|", ">", "%", "\t"}
 			for i := 0; i < n; i++ {
 				cmd := exploreCmds[rng.Intn(len(exploreCmds))]
